@@ -419,6 +419,25 @@ class Interp:
         if name in ('networkx.topological_sort', 'networkx.lexicographical_topological_sort') and args and isinstance(args[0], AObj) \
                 and 'nodes' in args[0].attrs and args[0].attrs['nodes'] is not TOP:
             return self._to_list(args[0].attrs['nodes'])          # some order of the abstract graph's nodes
+        if name in ('networkx.descendants', 'networkx.ancestors', 'networkx.has_path') and args and isinstance(args[0], AObj) \
+                and isinstance(args[0].attrs.get('edges'), dict):
+            edges = list(args[0].attrs['edges'])
+
+            def reach_from(src, forward=True):
+                seen, todo = set(), [src]
+                while todo:
+                    x = todo.pop()
+                    for (u, v) in edges:
+                        a, b = (u, v) if forward else (v, u)
+                        if a == x and b not in seen:
+                            seen.add(b)
+                            todo.append(b)
+                return seen
+            if last == 'descendants':
+                return reach_from(args[1], True)
+            if last == 'ancestors':
+                return reach_from(args[1], False)
+            return args[2] in reach_from(args[1], True) or args[1] == args[2]
         if name == 'builtins.getattr' and len(args) >= 2 and isinstance(args[1], str):
             obj = args[0]
             if isinstance(obj, AObj) and args[1] in obj.attrs:
